@@ -69,6 +69,22 @@ func (p c09) genRedis(r *simhook.Rand, action string) *C09Scenario {
 		rs.Faults = append(rs.Faults, Fault{Kind: "accept-error", AfterStart: 1 + r.Intn(80)})
 	}
 	rs.Class = "redis-" + action + "-" + sc.Backend
+	if sc.Backend != "closed" && len(rs.Conns) > 0 && r.Chance(1, 3) {
+		// a backend connection is lost in the middle of pipelined traffic: clients of the service come and go (the
+		// old one winds down while requests already look for its successor) before the service is stopped
+		for i := 0; i < 1+r.Intn(2); i++ {
+			rs.Faults = append(rs.Faults, Fault{Kind: []string{"rst", "fin"}[r.Intn(2)], Node: r.Intn(rs.Env.Masters), AfterSend: r.Intn(150)})
+		}
+		for i := range rs.Conns {
+			for k := range rs.Conns[i].Reqs {
+				rs.Conns[i].Reqs[k].Wait = false
+			}
+			for len(rs.Conns[i].Reqs) < 6 {
+				rs.Conns[i].Reqs = append(rs.Conns[i].Reqs, world.Request{Args: world.Bins("GET", keys[r.Intn(len(keys))])})
+			}
+		}
+		rs.Class += "+reset"
+	}
 	sc.R = rs
 	return sc
 }
@@ -101,6 +117,17 @@ func (p c09) genTCP(r *simhook.Rand, action string) *C09Scenario {
 		ts.Faults = append(ts.Faults, TCPFault{Kind: "accept-error", AfterStart: 1 + r.Intn(60)})
 	}
 	ts.Class = "tcp-" + action + "-" + sc.Backend
+	if r.Chance(1, 3) {
+		// health checking: its monitor and checker tasks belong to the service and must be gone after Stop, also
+		// when the health-check section was changed (or first given) by configuration updates while running
+		if r.Chance(2, 3) {
+			ts.Env.HC = &world.HCCfg{IntervalMs: []int{500, 2000, 10000}[r.Intn(3)], TimeoutMs: 400, Fall: 1 + r.Intn(3), Rise: 1 + r.Intn(3)}
+		}
+		for i := 0; i < r.Intn(3); i++ {
+			ts.Faults = append(ts.Faults, TCPFault{Kind: "hc-update", AfterStart: 1 + r.Intn(120)})
+		}
+		ts.Class += "+hc"
+	}
 	sc.T = ts
 	return sc
 }
